@@ -10,7 +10,11 @@ creating class) is the oracle.
 
 Every object is obtained in FRESH sessions through every access path (Root[pk], Sub[pk], get, exists, select,
 lambda / generator queries, select_by_sql / get_by_sql, to-one navigation, to-many iteration, prefetch, proxies,
-unpickling, after commit, and the same paths again after the session already holds pk-only seeds of the objects).
+unpickling, after commit, and the same paths again after the session already holds pk-only seeds of the objects),
+and through reference CHAINS start.a.b[.c] / collection-item.b whose intermediate objects are whatever the session holds
+at that moment: plain entities Link / Hub / Owner (no subclasses) stay unloaded pk-only seeds until their own reference
+attribute is read, so the hop that yields the polymorphic target first has to load its owner's row; a third of the
+to-one attributes into the hierarchies are declared lazy=True, so the value is loaded by the read itself.
 type(obj) is compared with the creating class at the moment the object is first visible and after reading all its
 attributes; every polymorphic read over entity E must return exactly the model's instances of E; isinstance(x, C)
 / isinstance(x, (C1, C2)) in generator, lambda and string queries must agree with Python isinstance on the model.
@@ -60,6 +64,11 @@ META = {
         'prefetch of a many-to-many collection, lookups in a session that already holds such a seed) and only if the '
         'class is right after obj.load(); a wrongly typed seed or loaded object anywhere else is a violation.',
         '`not isinstance(x.ref, C)` with x.ref None is bracketed (Python True, SQL unknown).',
+        'Reference chains: every chain of 2 and 3 to-one hops whose intermediate objects are objects of plain entities, '
+        'plus a seeded sample (150 / 500 per length) of the others; chains and single hops ending in a lazy attribute are '
+        'counted separately and have their own floors.  Reading a reference of a many-to-many item whose value is already '
+        'known through the reverse side gives that pk-only seed read bits; a later load that must refine its class raises '
+        'NotImplementedError -- loud, counted (outcome.pony_raised.refine_seed_with_read_bits_NotImplementedError).',
         'Objects of a diamond class referenced through attributes typed by two unrelated branches (the F_DIAMOND '
         'situation) are generated only in every fourth diagram, so that the other monitors keep their power.',
     ],
